@@ -143,6 +143,20 @@ def _cls(r):
     return "2^64-1" if r == (1 << 64) - 1 else ("2^63" if r == 1 << 63 else ("2^63-1" if r == (1 << 63) - 1 else str(r)))
 
 
+DEFERRED = []
+
+
+def _local_root(f, v, depth=0):
+    I = f.inst(tuple(v))
+    if I is None or depth > 20:
+        return False
+    if I.op == "alloca":
+        return True
+    if I.op in ("getelementptr", "bitcast"):
+        return _local_root(f, I.ops[0], depth + 1)
+    return False
+
+
 def usable_rule(ck, mod, fname, label, expect_updates):
     """Whatever the callback returned, every path continues through the Hash_df mixing
     over the buffer the callback wrote into, and sets V, C, counter (and limit)."""
@@ -180,6 +194,11 @@ def usable_rule(ck, mod, fname, label, expect_updates):
                 ln = u.call_args()[2]
                 if b == ("a", 0) and o == want_off and ln[0] == "c" and const_val(ln) == 32:
                     ups.append(u)
+            if not ups and any(_local_root(f, u.call_args()[1]) for u in f.calls("tinyjambu_hash_update") if ir.ptr_base(f, u.call_args()[0]) == h):
+                # absorbed through a local staging buffer (header and V built in one piece): which bytes reach the hash is decided byte
+                # for byte by the provenance rule below (delivered-bytes-*), not by this call-shape rule
+                DEFERRED.append("%s: %s" % (fname, what))
+                continue
             ok = bool(ups) and not f.can_reach(ec.id, c.id, avoid_insts=[u.id for u in ups])
             ck.ob(ok, "R-C17-USABLE", fname, "mix-%s[%s]" % (what, label),
                   "all 32 bytes of %s are absorbed into the hash that yields the new V on every path" % what,
@@ -426,6 +445,7 @@ def run(ck, build):
     _, fld2, nr2 = status_rule(ck, mod, "tinyjambu_prng_reseed", label)
     ck.floor("R-C17-STATUS", "size classes explored", nr + nr2, 10)
     V, C = fields["V"]["offset"], fields["C"]["offset"]
+    del DEFERRED[:]
     usable_rule(ck, mod, "tinyjambu_prng_init_user", label, [(V, "the entropy buffer (V)")])
     usable_rule(ck, mod, "tinyjambu_prng_reseed", label, [(V, "the old V"), (C, "the entropy buffer (C)")])
     # reseed requests entropy on every path (a NULL-guarded request silently turns reseeding into a no-op)
